@@ -37,6 +37,10 @@ def check(chk):
     from . import shared
     shared.grouping_rules(chk, m, 'R7.9')
     shared.verbatim_override_rules(chk, m, 'R7.10')
+    r711(chk, m)
+    r712(chk, m)
+    from . import c11
+    c11.r111(chk, m, rule_id='R7.13')      # a verbatim scan that misses its end swallows the rest of the document
     chk.decline('word order and multiplicity for concrete documents; parent chains of every generated tree (runtime)')
 
 
@@ -513,3 +517,107 @@ def parent_stmt(root, node):
             if any(x is node for x in ast.walk(st)):
                 best = st
     return best
+
+
+# ---------------------------------------------------------------------------
+def r711(chk, m):
+    """Substitutions reach every text run."""
+    from . import domheap as D
+    R = chk.rule('R7.11', 'character substitutions on the DOM heap: normalize(substitutions) merges each run of adjacent text nodes into one '
+                 'node and applies the substitutions to it - to a run of a single character as well as to longer ones - and hands them '
+                 'on to the element children; the other children keep their order', 3)
+    Node = m.cls(D.DOM, 'Node')
+    fn = m.find_method(Node, 'normalize')
+    need(fn is not None, 'Node.normalize not found')
+    chk.analysed(fn)
+    subs = [("''", 'RDQ'), ("'", 'RSQ'), ('--', 'DASH')]
+    cases = [('a lone quote between two elements', lambda d: [d.elem('e1', childlist=False), d.text('q', "'"), d.elem('e2', childlist=False)], 'e1 "RSQ" e2'),
+             ('adjacent text nodes form one run', lambda d: [d.text('a', 'a-'), d.text('b', '-b'), d.elem('e1', childlist=False), d.text('c', "c''")], '"aDASHb" e1 "cRDQ"'),
+             ('a single character at the end', lambda d: [d.elem('e1', childlist=False), d.text('q', "'")], 'e1 "RSQ"'),
+             ('text inside an element child', lambda d: [d.elem('e1', [d.text('in', "x--y")])], 'e1["xDASHy"]'),
+             ('no text at all', lambda d: [d.elem('e1', childlist=False), d.elem('e2', childlist=False)], 'e1 e2')]
+    for label, build, want in cases:
+        d = D.Dom(m)
+        P = d.elem('P', build(d))
+        for c in D.children(P):
+            c.attrs['parentNode'] = P
+            if isinstance(c, A.Obj):
+                c.attrs.setdefault('nonNormalizedAttrs', [])
+        P.attrs['nonNormalizedAttrs'] = []
+        try:
+            outs = D.run(m, fn, {'self': P, 'charsubs': list(subs), '__P': P})
+        except D.Imprecise as e:
+            chk.undecided(R, label, str(e), chk.where(fn))
+            continue
+
+        def show(n):
+            if isinstance(n, A.TextObj):
+                return '"%s"' % str(n)
+            kids = D.children(n)
+            return n.label + ('[%s]' % ' '.join(show(k) for k in kids) if kids else '')
+        got = {('%s: %s' % (k2, ' '.join(show(c) for c in D.children(s2.env['__P']) or []))) for k2, s2, v in outs}
+        chk.decide(R, label, got, {'return: ' + want}, 'normalize with the substitutions %s gives %s; expected %s' % (subs, sorted(got), want), chk.where(fn))
+
+
+def r712(chk, m):
+    """A caption that is attached to an object stays where it is in the tree."""
+    from . import domheap as D
+    R = chk.rule('R7.12', 'captions of floats on the DOM heap: attaching a caption to the float or to the object it describes does not move '
+                 'it - afterwards every caption still has the parent it had, is still listed there once, and no attribute map holds it '
+                 '(a node stored in an attribute map is re-parented to the owner of the map)', 2)
+    FL = 'plasTeX.Base.LaTeX.Floats'
+    Float = m.cls(FL, 'Float')
+    fn = m.find_method(Float, 'digest')
+    need(fn is not None, 'Float.digest not found')
+    chk.analysed(fn)
+    table = m.cls(FL, 'table')
+    Macro = m.cls('plasTeX', 'Macro')
+    NM = m.cls(D.DOM, 'NamedNodeMap')
+
+    class H(D.DomHooks):
+        def call(self, interp, node, fname, args, kwargs, state):
+            if fname in ('Environment.digest', 'Macro.digest', 'Command.digest') and len(args) == 2:
+                return A.NONE
+            if fname == 'dict.__setitem__' and len(args) == 3 and isinstance(args[0], A.Obj) and isinstance(args[0].attrs.get('__dict'), dict):
+                args[0].attrs['__dict'][args[1]] = args[2]
+                return A.NONE
+            if fname == 'getattr' and len(args) == 3 and isinstance(args[0], A.Obj) and isinstance(args[1], str) and args[1] not in args[0].attrs \
+               and isinstance(args[0].cls, M.ClassInfo):
+                v = self.model.class_const(args[0].cls, args[1])
+                if not M.is_unknown(v):
+                    return A.NONE if v is None else v
+            return D.DomHooks.call(self, interp, node, fname, args, kwargs, state)
+    for label, nobj in (('one object and one caption', 1), ('two objects and two captions', 2)):
+        d = D.Dom(m)
+        kids = []
+        for i in range(nobj):
+            tab = d.elem('tabular%d' % i)
+            tab.cls = table.nested['tabular']
+            amap = A.Obj('attributes-of-tabular%d' % i, {'__dict': {}, '_dom_parentNode': tab}, cls=NM)
+            tab.attrs['attributes'] = amap
+            cap = d.elem('caption%d' % i)
+            cap.cls = table.nested['caption']
+            cap.attrs['attached'] = False
+            kids += [tab, cap]
+        F = d.elem('float', kids)
+        F.cls = table
+        F.attrs.update(macroMode=m.class_const(Macro, 'MODE_BEGIN'), MODE_BEGIN=m.class_const(Macro, 'MODE_BEGIN'))
+        it = A.Interp(model=m, scope=fn, hooks=H(m, Float), max_iter=12, exc_edges=False, inline=12, heap=True, precise_exc=True, max_states=20000)
+        outs = it.run_function(fn, env={'self': F, 'tokens': A.Stream([]), '__F': F})
+        if it.imprecise or it.unknown_branches:
+            chk.undecided(R, label, '; '.join((it.imprecise + it.unknown_branches)[:2]), chk.where(fn))
+            continue
+        got = set()
+        for k2, s2, v in outs:
+            F2 = s2.env['__F']
+            probs = D.link_problems(F2)
+            for c in D.children(F2):
+                am = c.attrs.get('attributes')
+                if isinstance(am, A.Obj) and am.attrs.get('__dict'):
+                    probs.append('%s holds %s' % (am.label, sorted(D.label_of(x) if isinstance(x, (A.Obj, A.TextObj)) else repr(x) for x in am.attrs['__dict'].values())))
+                if c.label.startswith('caption') and c.attrs.get('attached') is not True:
+                    probs.append('%s is not marked as attached' % c.label)
+            got.add('%s: %s | %s' % (k2, ' '.join(D.label_of(c) for c in D.children(F2)), '; '.join(probs) or 'links intact'))
+        want = 'return: %s | links intact' % ' '.join(D.label_of(c) for c in kids)
+        chk.decide(R, label, got, {want}, 'a float with %s: after digest %s; expected %s - the caption would be reachable from two places and '
+                   'its parent chain would no longer lead through its container' % (label, sorted(got), want), chk.where(fn))
